@@ -1523,6 +1523,7 @@ int32 parseServerHello(ssl_t *ssl, int32 hsLen, unsigned char **cp,
     int32 rc;
     unsigned char *extData;
     unsigned char *c;
+    psBool_t offeredSessionRefused = PS_FALSE;
 
     c = *cp;
 
@@ -1619,6 +1620,7 @@ int32 parseServerHello(ssl_t *ssl, int32 hsLen, unsigned char **cp,
                 ssl->sessionIdLen = (unsigned char) sessionIdLen;
                 Memcpy(ssl->sessionId, c, sessionIdLen);
                 ssl->flags &= ~SSL_FLAGS_RESUMED;
+                offeredSessionRefused = PS_TRUE;
 # ifdef USE_MATRIXSSL_STATS
                 matrixsslUpdateStat(ssl, FAILED_RESUMPTIONS_STAT, 1);
 # endif
@@ -1658,6 +1660,7 @@ int32 parseServerHello(ssl_t *ssl, int32 hsLen, unsigned char **cp,
             ssl->sessionIdLen = 0;
             Memset(ssl->sessionId, 0x0, SSL_MAX_SESSION_ID_SIZE);
             ssl->flags &= ~SSL_FLAGS_RESUMED;
+            offeredSessionRefused = PS_TRUE;
 # ifdef USE_MATRIXSSL_STATS
             matrixsslUpdateStat(ssl, FAILED_RESUMPTIONS_STAT, 1);
 # endif
@@ -1823,7 +1826,20 @@ int32 parseServerHello(ssl_t *ssl, int32 hsLen, unsigned char **cp,
             TODO - could also send a sessionId and see if it is returned here.
             Spec requires the same sessionId to be returned if ticket is accepted.
          */
-        ssl->sid->sessionTicketState = SESS_TICKET_STATE_IN_LIMBO;
+        if (offeredSessionRefused)
+        {
+            /* We offered a session id together with the ticket and the
+               server did not echo it: RFC 5077 3.4 says a server that
+               accepts the ticket must echo it, so the ticket was refused.
+               The master secret has been wiped above; a ChangeCipherSpec
+               arriving next must not be taken for an abbreviated handshake
+               (it would key the connection from the all-zero secret). */
+            ssl->sid->sessionTicketState = SESS_TICKET_STATE_INIT;
+        }
+        else
+        {
+            ssl->sid->sessionTicketState = SESS_TICKET_STATE_IN_LIMBO;
+        }
     }
 # endif /* USE_STATELESS_SESSION_TICKETS        */
 
